@@ -99,9 +99,22 @@ def record(seed, n_traces, n_ev, kinds):
             script.load([])
             obj = cls(capacity=cap, bucket_size=bs, max_swaps=5, finger_size=fs, auto_expand=False)
             tr.update(cap=cap, bs=bs, ms=5, fb=8 * fs)
+        if kind in ("bloom", "cbloom") and not unicode_keys:
+            # a key two of whose probes land on the same cell (hit once per occurrence by add AND by remove): searched for, since it is rare
+            for _ in range(400):
+                cand = rand_key(rnd)
+                ck = cand.decode("ascii") if as_text else cand
+                ps = [h % tr["m"] for h in obj.hashes(ck)]
+                if len(set(ps)) < len(ps) and cand not in keys:
+                    keys[0] = cand
+                    real_keys[0] = ck
+                    tr["keys"][0] = list(cand)
+                    break
         outstanding = {i: 0 for i in range(len(keys))}
         for _ in range(n_ev):
             i = rnd.randrange(max(1, len(keys) - 3))  # the last three keys are probe-only: never added
+            if kind == "cbloom" and rnd.random() < 0.3:
+                i = 0                                   # the key with coinciding probes gets its share of additions and removals
             key = real_keys[i]
             ev = {"op": "add", "k": i + 1, "a": 1}
             try:
